@@ -80,7 +80,6 @@ def pair(F, ob, cfg):
         K.honest(F, ob, mode + ".honest", c)
         # invertible: det(c) = det(a) det(b), both non-zero by the operands' invariants
         ob.eq(mode + ".invertible", K.det(c.h_matrix), K.det(ha) * K.det(hb))
-        ob.true(mode + ".fresh", c is not a and c is not b and c.h_matrix is not ha and c.h_matrix is not hb)
         # in-place variant
         a2 = a.copy()
         accepted = isinstance(b, a2.composes_inplace_with)
@@ -94,11 +93,9 @@ def pair(F, ob, cfg):
             ob.true(mode + ".inplace.rejected", not accepted)
             K.same_terms(F, ob, mode + ".inplace.rejected.unchanged", before, a2.h_matrix)
     # operands intact
-    ob.true("operands.same_arrays", a.h_matrix is ha and b.h_matrix is hb)
     K.same_terms(F, ob, "operands.a", sa, a.h_matrix)
     K.same_terms(F, ob, "operands.b", sb, b.h_matrix)
     for (t, s, tg, ss, st) in al_state:
-        ob.true("alignment.ends_same", t._source is s and t._target is tg)
         K.same_terms(F, ob, "alignment.source", ss, t._source.points)
         K.same_terms(F, ob, "alignment.target", st, t._target.points)
 
